@@ -2755,8 +2755,9 @@ define_struct_type(InterrogateType &itype, CPPStructType *cpptype,
         // Here's a method declaration.
         define_method(inst, itype, cpptype, scope);
 
-      } else {
-        // Here's a data member declaration.
+      } else if (!in_ignoremember(inst->get_simple_name())) {
+        // Here's a data member declaration (and the user did not ask us to
+        // ignore members of this name).
         ElementIndex data_member = scan_element(inst, cpptype, scope);
         if (data_member != 0) {
           itype._elements.push_back(data_member);
